@@ -25,6 +25,12 @@ Via == {T("M", "viahost", 1, s) : s \in Scripts1 \cup Scripts2}
 Reuse == {T("M", "recfin", 100000000, <<>>), T("M", "recfin", 3, <<>>), T("M", "recinf", 1, <<>>), T("M", "mark", 1, <<>>)}
 (* a failure deep in a recursion, then a deep (but legal) recursion on the same function objects: frames left behind by the failure count *)
 DeepReuse == {T("M", "recmix", 1601, <<>>), T("M", "recmix", 2600, <<>>), T("M", "recmix", 6, <<>>)}
+K(b, v, s) == [body |-> b, via |-> v, script |-> s]
+StartsAll == {K(b, v, <<>>) : b \in {"plain", "trap"}, v \in {"section", "export"}} \cup
+             {K(b, v, <<n>>) : b \in {"host", "peer2"}, v \in {"section", "export"}, n \in Leaves}
+NoStarts == {}
+(* what runs between the instantiations: effects and liveness of M and A are observed through these *)
+StartTops == {T("M", "mark", 1, <<>>), T("A", "peer", 0, <<>>), T("M", "callpeer", 0, <<>>)}
 TopsAll == Plain \cup Via \cup Heavy \cup PeerHost \cup Deep
 TopsLight == Plain \cup Via \cup PeerHost \cup Deep
 TopsCore == {T("M", "callpeer", 2, <<Exit(3)>>), T("M", "recfin", 3, <<>>), T("M", "mark", 1, <<>>), T("A", "peer", 0, <<>>), T("M", "callpeer", 1, <<>>), T("M", "trap", 0, <<>>), T("M", "rectrap", 2, <<>>)} \cup
